@@ -59,7 +59,7 @@ func runC02(r *core.Run) {
 			switch reason {
 			case "outputs-exceed", "outputs-overflow", "signed-more-than-inputs-minus-fee", "signed-more-than-quote-amount",
 				"inputs-below-amount+reserve+fee", "nothing-left-after-fee", "more-signatures-than-outputs",
-				"quote-unpaid", "quote-already-issued", "input-spent", "input-pending", "duplicate-input-secret", "tampered-amount", "quote-paid", "quote-pending":
+				"internal-settlement-for-less-than-mint-quote", "quote-unpaid", "quote-already-issued", "input-spent", "input-pending", "duplicate-input-secret", "tampered-amount", "quote-paid", "quote-pending":
 				r.Violate("accepted:"+op+":"+reason, fmt.Sprintf("%s accepted although %s (%s)", op, reason, detail), sig, s.Tail(12))
 			default:
 				r.Observe("accepted-unexpectedly:"+reason, op+": "+detail)
@@ -101,6 +101,9 @@ func runC02(r *core.Run) {
 		}
 		for i := 0; i < nops && r.Violations() < 20; i++ {
 			s.RandomOp(cfg)
+		}
+		for k, v := range s.Stats {
+			r.Count("op:"+k, int64(v))
 		}
 		r.Count("operations", int64(s.NOps))
 		r.Count("signatures_seen", int64(len(s.Sigs)))
